@@ -42,6 +42,12 @@ func (m *Migrator) Migrate(body []byte, target uint) (newBody []byte, upgraded b
 		return body, false, fmt.Errorf("parsing config file for upgrade: %w", err)
 	}
 
+	if diskConf == nil {
+		// The document is a YAML null, e.g. there is nothing after "---".
+		// Treat it like an empty one.
+		diskConf = yobj{}
+	}
+
 	currentInt, _, err := fieldVal[int](diskConf, "schema_version")
 	if err != nil {
 		// Don't wrap the error, since it's informative enough as is.
